@@ -71,6 +71,29 @@ impl CmdSet for Mixed {
         &["set-all", "set", "жа", "жб", "h", "help-me", "s", "中文", "😀x"];
 }
 
+/// names that diverge inside a 3-byte / 4-byte character (a byte-wise common prefix would
+/// cut the character), and a name that is a proper prefix of such a name
+#[derive(Command)]
+pub enum Wide {
+    #[command(name = "led-開")]
+    LedOpen,
+    #[command(name = "led-閉")]
+    LedClose,
+    #[command(name = "go-😀")]
+    GoA,
+    #[command(name = "go-😁")]
+    GoB,
+    #[command(name = "€a")]
+    EuroA,
+    #[command(name = "€")]
+    Euro,
+}
+
+impl CmdSet for Wide {
+    const ID: &'static str = "wide";
+    const NAMES: &'static [&'static str] = &["led-開", "led-閉", "go-😀", "go-😁", "€a", "€"];
+}
+
 /// the name set of the small design-level models (MC_Cli, NameSet = "tiny")
 #[derive(Command)]
 pub enum Tiny {
@@ -139,9 +162,13 @@ macro_rules! with_set {
                 type $S = $crate::sets::Tiny;
                 $body
             }
+            "wide" => {
+                type $S = $crate::sets::Wide;
+                $body
+            }
             other => panic!("unknown command set {other}"),
         }
     };
 }
 
-pub const SET_IDS: &[&str] = &["raw", "leds", "mixed", "grouped", "tiny"];
+pub const SET_IDS: &[&str] = &["raw", "leds", "mixed", "grouped", "tiny", "wide"];
